@@ -52,9 +52,15 @@ class History:
             coroutines=rng.random() < 0.7, connect_script={},
             connect_signature={ns: rng.choice(['optional', 'optional',
                                                'required'])
-                               for ns in handler_ns})
+                               for ns in handler_ns},
+            # catch-all registrations (function handlers under the '*'
+            # namespace) serve the namespaces that are served anyway and have
+            # no handlers of their own; they do not open any further namespace
+            global_catchall=rng.random() < 0.3)
         self.pool = pool
         self.handler_ns = set(handler_ns)
+        if self.cfg['global_catchall']:
+            ctx.count('histories_with_catch_all_namespace_handlers')
         self.listed = set(listed)
         self.r = S.Runner(self.cfg)
         self.conn = {}          # (T, ns) -> sid  (accepted and not ended)
@@ -70,6 +76,9 @@ class History:
     def served(self, ns):
         return ns in self.handler_ns or self.nopt == 'star' or \
             ns in self.listed
+
+    def handled(self, ns):
+        return ns in self.handler_ns or self.cfg['global_catchall']
 
     def witness(self, res, extra=None):
         w = {'case_index': self.index, 'kind': self.kind,
@@ -116,7 +125,7 @@ class History:
         auth = rng.choice(AUTHS)
         beh = rng.choice(BEHAVIOURS)
         dup = (T, ns) in self.conn
-        will_run = self.served(ns) and not dup and ns in self.handler_ns
+        will_run = self.served(ns) and not dup and self.handled(ns)
         if will_run:
             self.cfg['connect_script']
             self.r.connect_script.setdefault(ns, []).append(beh)
@@ -149,7 +158,7 @@ class History:
                 pass
             return
         # served: handler count
-        want_h = 1 if ns in self.handler_ns else 0
+        want_h = 1 if self.handled(ns) else 0
         hc = [e for e in h if e[1] == 'connect']
         if len(hc) != want_h or len(h) != want_h:
             return self.fail('connect handler ran %d times, expected %d'
@@ -251,7 +260,7 @@ class History:
                if e[0] == 'handler' and e[1] == 'disconnect']
         others = [e for e in res['events'] if e[0] == 'handler' and
                   e[1] != 'disconnect']
-        want = [w for w in want if w[1] in self.handler_ns]
+        want = [w for w in want if self.handled(w[1])]
         self.ctx.count('terminations_checked')
         if sorted(got) != sorted(want) or others:
             self.fail('disconnect handler invocations %r, expected %r' % (
@@ -304,7 +313,7 @@ class History:
         # scripted where a single handler runs.
         faulted = rng.random() < 0.3
         nhandlers = len([k2 for k2 in self.conn if k2[0] == T
-                         and k2[1] in self.handler_ns])
+                         and self.handled(k2[1])])
         nconn = len([k2 for k2 in self.conn if k2[0] == T])
         if faulted:
             if k < 0.75 or nconn <= 1:
@@ -462,6 +471,7 @@ def run(ctx):
     ctx.require('accepted', 50)
     ctx.require('refusals_checked', 20)
     ctx.require('refused_unserved_or_duplicate', 10)
+    ctx.require('histories_with_catch_all_namespace_handlers', 5)
     ctx.require('terminations_checked', 50)
     ctx.require('terminations_with_failing_handler', 10)
     ctx.require('probes', 50)
